@@ -65,7 +65,7 @@ TraceSpec == TraceInit /\ [][TraceNext]_tvars
 \* high-water mark of consumed lines: the trace is accepted iff every line was consumed
 Mark == TLCSet(1, IF TLCGet(1) < l THEN l ELSE TLCGet(1))
 TraceConstraint == Mark
-TraceAccepted == TLCGet(1) = Len(TraceLog) + 1
+TraceAccepted == PrintT(ToJson([skipped |-> TLCGet(2), lines |-> Len(TraceLog)])) /\ TLCGet(1) = Len(TraceLog) + 1
 ASSUME TLCSet(1, 0) /\ TLCSet(2, 0)
 Skipped == TLCGet(2)
 =============================================================================
